@@ -30,6 +30,7 @@ impl PropDef {
 pub mod common;
 
 pub mod c01;
+pub mod c03;
 pub mod c05;
 pub mod c06;
 pub mod c07;
@@ -39,6 +40,7 @@ pub mod c20;
 pub fn get(id: &str) -> Option<PropDef> {
     match id {
         "C01" => Some(c01::def()),
+        "C03" => Some(c03::def()),
         "C05" => Some(c05::def()),
         "C06" => Some(c06::def()),
         "C07" => Some(c07::def()),
@@ -49,6 +51,12 @@ pub fn get(id: &str) -> Option<PropDef> {
 }
 
 /// `vcheck child <op> ...` dispatch (crash monitors).
-pub fn child_main(_args: &[String]) -> i32 {
-    2
+pub fn child_main(args: &[String]) -> i32 {
+    match args.first().map(|s| s.as_str()) {
+        Some("c03-deep") => c03::child(&args[1..]),
+        _ => {
+            eprintln!("unknown child op {:?}", args.first());
+            2
+        }
+    }
 }
